@@ -9,6 +9,7 @@ import (
 	"sync/atomic"
 	"testing"
 
+	"github.com/streamingfast/substreams/manifest"
 	"github.com/streamingfast/substreams/orchestrator/stage"
 	"github.com/streamingfast/substreams/storage/store"
 
@@ -191,3 +192,20 @@ func compareStores(S, L *storeSnap, kinds map[string]sdsl.Kind) *ev.Failure {
 }
 
 type dslrtBehaviour = dslrt.Behaviour
+
+// moduleHashes returns the real cache identifier of every module of the program.
+func moduleHashes(p pgen.Prog) map[string]string {
+	pb := p.Modules()
+	out := map[string]string{}
+	mg, err := manifest.NewModuleGraph(pb.Modules)
+	if err != nil {
+		return out
+	}
+	mh := manifest.NewModuleHashes()
+	for _, m := range pb.Modules {
+		if h, err := mh.HashModule(pb, m, mg); err == nil {
+			out[m.Name] = fmt.Sprintf("%x", []byte(h))
+		}
+	}
+	return out
+}
